@@ -416,6 +416,20 @@ impl CoreDocument {
     if self.resolve_method(method.id(), None).is_some() || self.service().query(method.id()).is_some() {
       return Err(Error::MethodInsertionError);
     }
+    // An embedded method must not share its identifier with a method reference either. Such a reference does not
+    // resolve (and is not found above) while the method it refers to is not part of the document, but embedding the
+    // method would turn it into a reference to an embedded method.
+    if let MethodScope::VerificationRelationship(_) = scope {
+      let id: &DIDUrl = method.id();
+      if self.data.authentication.contains(id)
+        || self.data.assertion_method.contains(id)
+        || self.data.key_agreement.contains(id)
+        || self.data.capability_delegation.contains(id)
+        || self.data.capability_invocation.contains(id)
+      {
+        return Err(Error::MethodInsertionError);
+      }
+    }
     match scope {
       MethodScope::VerificationMethod => self.data.verification_method.append(method),
       MethodScope::VerificationRelationship(MethodRelationship::Authentication) => {
